@@ -1,14 +1,15 @@
 """C16 — unsat cores of tracked solvers: flat, made of constraints of the solver, unsatisfiable; empty when sat.
 Same machinery as C11 (model, recorder, driver); histories are tracked, add-heavy and ask for cores."""
-import os
+import os, re
 
 from lib.common import LEAN, write_if_changed
-from lib import solvercheck as SC
+from lib import solvercheck as SC, solverlib as L
 import translate_solver as ts
 
 THEOREMS = ["Claripy.Props.C16.C16_mro_solver", "Claripy.Props.C16.C16_core_ids", "Claripy.Props.C16.C16_core_after_check"]
 A = lambda c, s=0: {"s": s, "op": "add", "cs": [c]}  # noqa: E731
-CORE = lambda s=0: {"s": s, "op": "unsat_core", "extra": []}  # noqa: E731
+CORE = lambda s=0, ex=(): {"s": s, "op": "unsat_core", "extra": list(ex)}  # noqa: E731
+SAT = lambda s=0: {"s": s, "op": "satisfiable", "extra": []}  # noqa: E731
 RULES = {
     "cheap-pairwise-path": [A("x == 5"), A("x != 5"), CORE()],
     "z3-path": [A("ULT(x, 3)"), A("ZeroExt(1, y) == x + 1"), A("SLT(y, 0)"), CORE()],
@@ -22,7 +23,31 @@ RULES = {
     "after-simplify-and-expansion": [A("Or(x == 1, x == 2)"), {"s": 0, "op": "max", "e": "x", "signed": False, "extra": []},
                                      A("UGE(x, 2)"), A("x != 2"), CORE(), {"s": 0, "op": "simplify"}, CORE()],
     "downsize": [A("ULT(x, 3)"), A("UGE(x, 8)"), {"s": 0, "op": "downsize"}, CORE()],
+    # what-if cores (extra constraints): the solver's own constraints have no model (a conflict only Z3 sees) and hold an unrelated
+    # constraint; the core asked for under an extra constraint may blame that one - the core of the solver itself may not
+    "whatif-core-then-own-core": [A("UGT(z, y)"), A("ULT(z, y)"), A("UGE(x, 8)"), SAT(), CORE(0, ["ULT(x, 3)"]), CORE(), {"s": 0, "op": "branch"},
+                                  CORE(1), CORE(0, ["x == 5"]), CORE()],
+    "whatif-core-unchecked": [A("x * x == 3"), A("SLT(y, 0)"), CORE(0, ["y == 2"]), CORE(), CORE(0, ["false"]), CORE()],
+    "whatif-core-on-sat": [A("UGE(x, 8)"), A("SLT(y, 0)"), CORE(0, ["ULT(x, 3)"]), CORE(), SAT(), CORE(0, ["y == 2", "b"]), CORE(), A("ULT(x, 3)"),
+                           CORE(0, ["y == 2"]), CORE()],
 }
+# histories the model does not take (annotated constraints: it has no notion of an AST and its un-annotated twin; classes other
+# than Solver): judged by the oracle only
+ORACLE_RULES = {
+    # the cheap pairwise path of SatCacheMixin compares the constraints WITHOUT their annotations; what it reports must be the
+    # constraints that were added, annotations and all
+    "annotated-cheap-path": [A("x == 1"), A("Ann(x == 2, 7)"), CORE(), {"s": 0, "op": "branch"}, CORE(1)],
+    "annotated-cheap-path-both": [A("Ann(y == 6, 1)"), A("SLT(x, 2)"), A("Ann(y != 6, 2)"), CORE(), A("b"), CORE()],
+    "annotated-z3-path": [A("Ann(UGE(x, 8), 1)"), A("ZeroExt(1, y) == x + 1"), A("Ann(ULT(x, 3), 2)"), CORE(), SAT(), CORE()],
+    "annotated-variable": [A("xa == 5"), A("x == 5"), A("xa != 5"), CORE(), A("x != 5"), CORE()],
+    "annotated-then-simplify": [A("Ann(Or(x == 1, x == 2), 3)"), A("Ann(UGE(x, 8), 1)"), CORE(), {"s": 0, "op": "simplify"}, CORE()],
+    # a concretely false constraint is held by no child of a composite: it is the core
+    "concrete-false": [A("ULT(x, 3)"), A("false"), CORE(), SAT(), CORE(), {"s": 0, "op": "branch"}, A("b", 1), CORE(1)],
+    "concrete-false-first": [A("x != x"), CORE(), A("y == 6"), CORE(), CORE(0, ["b"])],
+    "concrete-false-in-one-add": [{"s": 0, "op": "add", "cs": ["y == 6", "BVV(3, 4) == BVV(4, 4)", "ULT(z, 2)"]}, CORE(), {"s": 0, "op": "simplify"}, CORE()],
+    "two-unsat-children": [A("ULT(x, 3)"), A("UGE(x, 8)"), A("y == 6"), A("y * y == 3"), A("ULT(z, 2)"), CORE(), SAT(), CORE(0, ["z == 5"]), CORE()],
+}
+ORACLE_CLASSES = ["Solver", "SolverComposite", "SolverCacheless", "SolverHybrid"]
 WEIGHTS = {"add": 40, "satisfiable": 8, "eval": 8, "min": 4, "max": 4, "solution": 4, "simplify": 4, "downsize": 2,
            "branch": 6, "batch_eval": 2, "unsat_core": 14}
 
@@ -35,8 +60,36 @@ def jobs_for(ctx, mult=1):
     n = ctx.pick(110, 900) * mult
     lens = ctx.pick([6, 12, 20], [12, 30, 60])
     for i in range(n):
+        # every other history: a third of the unsat_core() calls are what-if cores (extra constraints)
         jobs.append({"cls": "Solver", "cfg": {"track": True, "reuse": i % 4 == 0}, "len": lens[i % len(lens)],
-                     "gen": {"weights": WEIGHTS}})
+                     "gen": dict({"weights": WEIGHTS}, **({"core_extra": 0.35, "contra": 0.15} if i % 2 else {}))})
+    # the solver's own constraints unsatisfiable (solver-only conflict) + a harmless constraint; a question; a what-if core that
+    # may blame the extras, then the solver's own core (again / on a branch); random tail
+    for i in range(ctx.pick(40, 300) * mult):
+        jobs.append({"cls": "Solver", "cfg": {"track": True, "reuse": i % 4 == 0}, "len": ctx.pick(3, 10),
+                     "gen": {"shape": "core-whatif", "weights": WEIGHTS, "core_extra": 0.35}})
+    return jobs
+
+
+def oracle_jobs(ctx, mult=1):
+    """annotated constraints, what-if cores and concretely false constraints on every tracked class (no model correspondence)"""
+    jobs = []
+    for cls in ORACLE_CLASSES:
+        hyb = cls == "SolverHybrid"       # its VSA half accepts only the annotations it knows
+        kinds = (0,) if hyb else (1, 2, 3, 0)
+        for name, h in list(ORACLE_RULES.items()) + [(k, v) for k, v in RULES.items() if cls != "Solver"]:
+            if hyb and any("Ann(" in c and not c.endswith(", 0)") for d in h for c in d.get("cs", [])):
+                h = [dict(d, cs=[re.sub(r", \d\)$", ", 0)", c) if c.startswith("Ann(") else c for c in d["cs"]]) if "cs" in d else d for d in h]
+            jobs.append({"cls": cls, "cfg": {"track": True, "reuse": False}, "hist": h})
+        lens = ctx.pick([6, 12, 20], [12, 30, 60])
+        calpha = L.CONSTRAINTS + ["false", "x != x", "xa == 5", "xs != 5"]
+        for i in range(ctx.pick(36, 300) * mult):
+            gen = {"weights": WEIGHTS, "calpha": calpha, "core_extra": 0.3, "contra": 0.2, "annotate": 0.4 if i % 3 else 0.0, "ann_kinds": kinds}
+            if i % 3 == 0:
+                jobs.append({"cls": cls, "cfg": {"track": True, "reuse": i % 4 == 0}, "len": lens[i % len(lens)], "gen": gen})
+            else:
+                jobs.append({"cls": cls, "cfg": {"track": True, "reuse": i % 4 == 0}, "len": ctx.pick(3, 10),
+                             "gen": dict(gen, shape="annotated-core" if i % 3 == 1 else "core-whatif")})
     return jobs
 
 
@@ -48,8 +101,13 @@ def run(ctx):
         "OracleExact, BuildExact, SimplifyEquiv, CheapSound as for C11; recorder harness/lib/solverrec.py; MRO translator",
     ]
     ctx.cov["rule"] = ("tracked Solver objects (track=True, reuse_z3_solver on/off), add-heavy histories with unsat_core() calls in between and "
-                       "after branches; rule-directed: cheap pairwise path, Z3 path, cached verdict, branch then add, tracked false, after "
-                       "simplify/expansion, downsize; non-trivial = history with >= 3 calls")
+                       "after branches, a third of them what-if cores (extra constraints, mostly contradicting a held constraint); rule-directed: "
+                       "cheap pairwise path, Z3 path, cached verdict, branch then add, tracked false, after simplify/expansion, downsize, what-if core "
+                       "then the solver's own core; directed openings: own constraints unsatisfiable by a solver-only conflict + harmless "
+                       "constraint, question, what-if core blaming the extras, own core (again, on a branch); oracle-only stream on Solver, "
+                       "SolverComposite, SolverCacheless, SolverHybrid: constraints carrying annotations (Bool-level Origin / Uninitialized, annotated "
+                       "variables), syntactic contradictions among them, concretely false constraints; core elements compared by AST identity; "
+                       "non-trivial = history with >= 3 calls")
     tie_ok = True
     try:
         write_if_changed(os.path.join(LEAN, "Claripy", "Gen", "SolverMro.lean"), ts.render(ts.translate()))
@@ -66,13 +124,17 @@ def run(ctx):
     SC.merge_cov(ctx, m, "tracked-histories")
     ctx.cov["input_distribution"]["tracked-histories"]["unsat_core_calls"] = m["opdist"].get("unsat_core", 0)
     fails = [f for f in m["fails"]]
+    mo = SC.run_jobs(ctx, oracle_jobs(ctx), workers, corr=False, chunk_size=ctx.pick(12, 25))
+    SC.merge_cov(ctx, mo, "tracked-histories(oracle only: annotated constraints, all classes)")
+    ctx.cov["input_distribution"]["tracked-histories(oracle only: annotated constraints, all classes)"]["unsat_core_calls"] = mo["opdist"].get("unsat_core", 0)
+    fails += mo["fails"]
     if m["driver_error"]:
         ctx.tie_broken("driver", m["driver_error"])
     for mm in m["mismatch"][:3]:
         ctx.tie_broken("corr:%s.%s" % (mm["cls"], mm["op"].get("op", "?")),
                        "%s differs after %s (%s); model=%s real=%s" % ("/".join(mm["differs"]), mm["op"], mm["cfg"], mm["model"][:400], mm["real"][:400]))
     if ctx.broken and not fails:
-        m2 = SC.run_jobs(ctx, jobs_for(ctx, mult=3), workers, corr=False, chunk_size=40)
+        m2 = SC.run_jobs(ctx, jobs_for(ctx, mult=3) + oracle_jobs(ctx, mult=2), workers, corr=False, chunk_size=40)
         SC.merge_cov(ctx, m2, "failing-input-search")
         fails += m2["fails"]
     # only core failures belong to this property; answers of other calls are C11's business but a wrong one is reported there
